@@ -84,6 +84,7 @@ Theorem C20_coexist :
   store_chunk zcomp st rs i plain s = (s', None) ->
   st_base st2 = st_base st -> wf_id j -> wf_id i ->
   (j <> i \/ st_unc st2 <> st_unc st) ->
+  not_link (probe (snd (name_from_id st2 j)) s) ->          (* the observed name is not a symbolic link *)
   get_chunk H zdecomp st2 j s' = get_chunk H zdecomp st2 j s /\
   has_chunk st2 j s' = has_chunk st2 j s /\
   get_data H zdecomp st2 j s' = get_data H zdecomp st2 j s.
@@ -96,14 +97,15 @@ Theorem C20_coexist_remove :
   remove_chunk st j s = RmOk s' ->
   st_base st2 = st_base st -> wf_id i -> wf_id j ->
   (i <> j \/ st_unc st2 <> st_unc st) ->
+  not_link (probe (snd (name_from_id st2 i)) s) ->
   get_chunk H zdecomp st2 i s' = get_chunk H zdecomp st2 i s /\ has_chunk st2 i s' = has_chunk st2 i s.
 Proof. exact remove_chunk_frame. Qed.
 Print Assumptions C20_coexist_remove.
 
 (* Both formats in one directory: whatever Prune (local or SFTP) of a store of one format returns, the
    canonical file of EVERY id in the other format is exactly as before ... *)
-Theorem C20_prune_leaves_other_format : forall tmp_rule (st : store) keep fuel bstr s0 s' e j,
-  prune_gen tmp_rule fuel st bstr keep s0 = (s', e) -> wf_id j ->
+Theorem C20_prune_leaves_other_format : forall tmp_rule stop (st : store) keep fuel bstr s0 s' e j,
+  prune_gen tmp_rule stop fuel st bstr keep s0 = (s', e) -> wf_id j ->
   stat (snd (name_from_id (mkStore (st_base st) (negb (st_unc st)) (st_skip st)) j)) s' =
   stat (snd (name_from_id (mkStore (st_base st) (negb (st_unc st)) (st_skip st)) j)) s0.
 Proof. exact prune_leaves_other_format. Qed.
@@ -114,6 +116,7 @@ Print Assumptions C20_prune_leaves_other_format.
 Theorem C20_verify_leaves_other_format :
   forall (H : bytes -> id) (zdecomp : bytes -> option bytes) (st : store) fuel bstr repair s0 s' msgs j,
   is_dir (stat (st_base st) s0) = true ->
+  (forall i, not_link (probe (snd (name_from_id st i)) s0)) ->
   verify H zdecomp fuel st bstr repair s0 = (s', msgs, None) -> wf_id j ->
   stat (snd (name_from_id (mkStore (st_base st) (negb (st_unc st)) (st_skip st)) j)) s' =
   stat (snd (name_from_id (mkStore (st_base st) (negb (st_unc st)) (st_skip st)) j)) s0 /\
